@@ -192,6 +192,8 @@ class Engine(ExprMixin, ExprMixin2, StmtMixin, LoopMixin, CallMixin, CompMixin, 
         ret = f.ret if f.status == "ret" and f.ret is not None else VNONE
         if is_gen:
             ret = V("gen", f.yielded if f.yielded is not None else z3.Empty(SeqV), elem=c.yields)
+        elif c.returns and ret.k in ("ref", "val"):
+            ret = self.coerce(ret, c.returns, f)
         env = {"result": ret}
         f.status = "run"
         for name, ty, _ in c.params:
